@@ -617,6 +617,35 @@ def check_tfrec(ctx: Context, rep, rule: str) -> None:
         "only as serialized tensors parsed back with the same dtype)")
     to, frm, writer, reader, parse, parse_sites, default_raises, rd = \
         tfrec_tables(ctx)
+    # byte / text values are stored as given: not through a NumPy coercion
+    # (np.array(b"...") is an S-dtype scalar: empty and NUL-terminated byte
+    # strings do not survive tobytes()/item())
+    from sa import dtypeval
+    from sa.dataflow import TagFlow
+
+    def coerce_hook(e, state, rec):
+        if isinstance(e, ast.Call) and ctx.is_call(
+                to, e, "numpy.array", "numpy.asarray", "numpy.copy",
+                "numpy.asanyarray", "numpy.frombuffer"):
+            return frozenset({"np-coerced"})
+        return None
+
+    for d in ("bytes", "str"):
+        ev = dtypeval.DtypeEval("attribute.dtype", d,
+                                ctx.repo.module(TFD).globals)
+        cfg_b = CFG(to, env={"attribute.dtype": d}, oracle=ev.oracle)
+        live_b = cfg_b.reachable([cfg_b.entry],
+                                 follow=lambda a, b, lab: lab != "exc")
+        tf_b = TagFlow(cfg_b, {}, hook=coerce_hook)
+        for n in cfg_b.calls():
+            if n in live_b and isinstance(n.ast.func, ast.Name) and \
+                    n.ast.func.id == "bytes_feature" and n.ast.args:
+                tags = tf_b.tags_at(n, n.ast.args[0])
+                rep.ob(rule, "np-coerced" not in tags, loc=to.loc(n.ast),
+                       where=to.qualname,
+                       construct=f"{d}: {short(n.ast, 70)}",
+                       message="a bytes / str value is stored as the caller "
+                       "gave it, not via a NumPy string scalar")
     rep.ob(rule, default_raises, loc=to.loc(), where=to.qualname,
            construct="else: raise ValueError('Unsupported dtype')",
            message="dtypes without a writer arm are rejected at write time")
